@@ -191,3 +191,41 @@ func VerifC04YAMLVeneers() {
 	}
 	v.Reach("the pipeline went through")
 }
+
+// VerifC17YAMLMergeDestination (C17): `merge_into.destination` names a BUILDER. After a builder was duplicated,
+// only the builder of that name receives the merged options — not every builder of the same object.
+func VerifC17YAMLMergeDestination() {
+	dest := v.Str("destination", "Foo", "Lite")
+	doc := c04Obj("language", "all", "package", "p", "builders", c04Arr(
+		c04Obj("duplicate", c04Obj("by_object", "Foo", "as", "Lite")),
+		c04Obj("merge_into", c04Obj("destination", dest, "source", "Opts", "under_path", "opts")),
+	))
+	rules, err := NewVeneersLoader().load(bytes.NewReader(v.JSONBytes(doc)))
+	v.Assert(err == nil, "C17: a valid builder-transformation file is rejected")
+	if err != nil {
+		return
+	}
+	p := ast.NewSchema("p", ast.SchemaMeta{})
+	p.AddObject(ast.NewObject("p", "Foo", ast.NewStruct(ast.NewStructField("name", ast.String()), ast.NewStructField("opts", ast.NewRef("p", "Opts")))))
+	p.AddObject(ast.NewObject("p", "Opts", ast.NewStruct(ast.NewStructField("level", ast.NewScalar(ast.KindInt64)))))
+	schemas := ast.Schemas{p}
+	builders := (&ast.BuilderGenerator{}).FromAST(schemas)
+	out, err := rewrite.NewRewrite([]rewrite.LanguageRules{rules}, rewrite.Config{}).ApplyTo(schemas, builders, "go")
+	v.Assert(err == nil, "C17: duplicate followed by merge_into fails")
+	if err != nil {
+		return
+	}
+	seen := 0
+	for _, b := range out {
+		if b.For.Name != "Foo" {
+			continue
+		}
+		seen++
+		hasLevel := false
+		for _, o := range b.Options {
+			hasLevel = hasLevel || o.Name == "level"
+		}
+		v.Assert(hasLevel == (b.Name == dest), "C17: merge_into changed a builder other than the one its destination names (or left that one unchanged)")
+	}
+	v.Assert(seen == 2, "C17: duplicate did not produce a second builder for the object")
+}
